@@ -1,7 +1,8 @@
 #!/bin/sh
 # runs every registered check of the given tier (default quick) on /repo and validates the evidence files
 TIER="${1:-quick}"
-cd /verif || exit 2
+HERE="$(cd "$(dirname "$0")/.." && pwd)"
+cd "$HERE" || exit 2
 status=0
 for id in $(python3 -c "import json; print(' '.join(c['property_id'] for c in json.load(open('MANIFEST.json'))['checks']))"); do
     ./check "$id" --tier "$TIER" || { echo "FAILED $id"; status=1; }
@@ -9,11 +10,11 @@ done
 python3-vt - <<'PY' || status=1
 import json, jsonschema, sys, os
 schema = json.load(open('/root/.vp/EVIDENCE.schema.json'))
-manifest = json.load(open('/verif/MANIFEST.json'))
+manifest = json.load(open('MANIFEST.json'))
 jsonschema.validate(manifest, json.load(open('/root/.vp/MANIFEST.schema.json')))
 bad = 0
 for c in manifest['checks']:
-    path = c['evidence_file']
+    path = os.path.join('evidence', os.path.basename(c['evidence_file']))
     try:
         jsonschema.validate(json.load(open(path)), schema)
     except Exception as exc:
